@@ -112,15 +112,21 @@ def check_site(ctx, S):
     # ---- return_all_logprobs
     if not S.iterative:
         R2 = "C06-ALL"
-        tuples = [(v, s) for v, s in S.flow.returns if isinstance(v, ast.Tuple) and len(v.elts) == 2]
         ok_any = False
-        for v, s in tuples:
-            g = [(canon(t), pol) for t, pol in A.guards_of(s)]
-            under = ("return_all_logprobs", True) in g
-            whole = L is not None and canon(v.elts[1]) == canon(L)
-            ctx.check(R2, s, "%s: second return value is the whole evaluated likelihood array" % q, whole and under,
-                      "returns `%s` (guard %s), not every evaluated ln-likelihood in evaluation order" % (A.unparse(s.value.elts[1])[:50], g), key=q + ":all")
-            ok_any = True
+        for v0, s in S.flow.returns:
+            pc = set(A.term_strings(A.path_condition(s, S.fn, inline=False)))
+            for terms, v in A.top_ifexp_terms(v0):
+                conds = pc | set(A.term_strings(terms))
+                under = "+return_all_logprobs" in conds
+                if not (isinstance(v, ast.Tuple) and len(v.elts) == 2):
+                    if under:
+                        ctx.violate(R2, s, "%s: with return_all_logprobs the likelihoods are returned too" % q, "returns `%s` although return_all_logprobs is set" % A.unparse(v)[:50], key=q + ":all")
+                        ok_any = True
+                    continue
+                whole = L is not None and canon(v.elts[1]) == canon(L)
+                ctx.check(R2, s, "%s: second return value is the whole evaluated likelihood array" % q, whole and under,
+                          "returns `%s` (under %s), not every evaluated ln-likelihood in evaluation order" % (A.unparse(v.elts[1])[:50], sorted(conds)), key=q + ":all")
+                ok_any = True
         if not ok_any:
             ctx.violate(R2, S.fn, "%s honours return_all_logprobs" % q, "no `return samples, <all ln-likelihoods>` branch", key=q + ":all-missing")
     ctx.notes.append({q: {"rows": A.unparse(Rsel)[:120], "identity_map": identity, "note": n_linear_note}})
